@@ -93,3 +93,71 @@ giv_contract = Contract(
 )
 
 CONTRACTS = [giv_contract]
+
+# =================================================================================================
+# StatementLowerer.lower_for_stmt: the body is lowered once per iteration value, in order, with the
+# iterator bound to that value, and names introduced by an iteration do not survive it.
+# (Iteration list of length 3 and body of length 2: bounded list lengths, symbolic values.)
+# =================================================================================================
+from pyvc.values import Opaque as _Opaque  # noqa: E402
+
+SL = "dsl_compiler/src/lowering/statement_lowerer.py::StatementLowerer."
+TRACE = []
+
+
+def _iter_values_effect(ex, a):
+    vals = [z3.Int("v0"), z3.Int("v1"), z3.Int("v2")]
+    TRACE.append(("values", vals))
+    return list(vals)
+
+
+def _lower_stmt_effect(ex, a):
+    me = ex.args_ns.self
+    refs = me.parent.signal_refs
+    TRACE.append(("stmt", a.stmt, refs.get("i"), "leak" in refs))
+    refs["leak"] = _Opaque("ref")  # the body declares a name
+    me.parent.entity_refs["leaked_entity"] = "e"
+    return None
+
+
+iter_values = Contract(qualname="dsl_compiler/src/ast/statements.py::ForStmt.get_iteration_values", params={"self": ty.TOpaque("s"), "constant_resolver": ty.TOpaque("r")},
+                       defaults={"constant_resolver": None}, effect=_iter_values_effect, verify=False, note="verified above (giv_contract): here a list of three symbolic values")
+lower_stmt = Contract(qualname=SL + "lower_statement", params={"self": ty.TOpaque("s"), "stmt": ty.TOpaque("st")}, effect=_lower_stmt_effect, verify=False,
+                      note="records (statement, iterator binding at the time of the call) and declares a body-local name")
+
+
+def _for_post(a, res):
+    vals = TRACE[0][1] if TRACE and TRACE[0][0] == "values" else None
+    calls = [t for t in TRACE if t[0] == "stmt"]
+    body = a.stmt.body
+    if vals is None or len(calls) != len(vals) * len(body):
+        return False
+    cs = []
+    k = 0
+    for v in vals:
+        for b in body:
+            _, st, bound, leaked = calls[k]
+            cs.append(st is b)
+            cs.append(bound is v)
+            # a name declared by an earlier iteration is gone when the next one starts
+            cs.append(leaked is False if b is body[0] else True)
+            k += 1
+    refs = a.self.parent.signal_refs
+    cs.append("leak" not in refs)
+    cs.append("leaked_entity" not in a.self.parent.entity_refs)
+    cs.append("outer" in refs)
+    return And(*cs)
+
+
+for_stmt = Contract(
+    qualname=SL + "lower_for_stmt",
+    params={"self": ty.TObj("StatementLowerer", only=("StatementLowerer",)), "stmt": ty.TObj("ForStmt", only=("ForStmt",))},
+    requires=[("(reset trace)", lambda a: TRACE.clear() or True)],
+    ensures=[("body lowered once per value, in order, iterator bound to the value; iteration-local names do not survive", _for_post)],
+    uses={"ForStmt.get_iteration_values": iter_values, "StatementLowerer.lower_statement": lower_stmt},
+    dynamic_types={"self": {"parent": ty.TObj("ASTLowerer", only=("ASTLowerer",))},
+                   "self.parent": {"signal_refs": ty.TConcrete({"outer": 7}), "entity_refs": ty.TConcrete({})},
+                   "stmt": {"iterator_name": ty.TConcrete("i"), "body": ty.TConcrete([_Opaque("stmt-A"), _Opaque("stmt-B")])}},
+    properties=("C16",), min_obligations=1, no_replay=True, note="bounded list lengths (3 values x 2 statements)",
+)
+CONTRACTS += [for_stmt, iter_values, lower_stmt]
